@@ -92,7 +92,7 @@ def run(ctx):
                 disagreements.append((idx, prog, src, v))
     # shrink + register (bounded)
     seen_cls = {}
-    for (idx, prog, src, v) in disagreements[:40]:
+    for (idx, prog, src, v) in disagreements[:(8 if ctx.quick else 40)]:
         small = shrink(ctx, prog, v[0])
         ssrc, _ = progen.emit(small)
         sig = "%s %s %s" % (PROP, v[0], vlib.hhex(proglib.normalize(ssrc)))
